@@ -304,6 +304,12 @@ func stressOne(c *vlib.Ctx, ct ctype, r *vlib.Rand, label string, goroutines, ke
 	for i := 0; i < typ.NumMethod(); i++ {
 		n := typ.Method(i).Name
 		if pointOps[n] {
+			if n == "Get" && strings.HasPrefix(ct.name, "Request") {
+				continue // blocking dequeue: exercised with its wake-up oracle in C11
+			}
+			if n == "Remove" && ct.name == "LinkedList" {
+				continue // Remove(node) needs a node handle obtained through GetFirst (not a point operation)
+			}
 			ops = append(ops, opm{n, inst.Method(i)})
 		}
 	}
@@ -430,11 +436,11 @@ func main() {
 	}
 
 	// monitor 1
-	reps := c.N(3, 20)
-	opsPer := c.N(6000, 40000)
+	reps := c.N(4, 40)
+	opsPer := c.N(6000, 60000)
 	if isRace {
-		reps = c.N(5, 30)
-		opsPer = c.N(3000, 15000)
+		reps = c.N(4, 40)
+		opsPer = c.N(3000, 30000)
 	}
 	c.Cases("stress", len(ctypes)*reps, func(i int, r *vlib.Rand) {
 		ct := ctypes[i%len(ctypes)]
